@@ -419,6 +419,12 @@ IDENTITY_CALLS = {
     "core::result::Result::<T, E>::map_err": [0],
     "core::result::Result::<T, E>::as_ref": [0],
     "core::convert::identity": [0],
+    "core::option::Option::<core::result::Result<T, E>>::transpose": [0],
+    "core::result::Result::<core::option::Option<T>, E>::transpose": [0],
+    "core::option::Option::<T>::unwrap_or": [0, 1], "core::result::Result::<T, E>::unwrap_or": [0, 1],
+    "core::option::Option::<T>::unwrap_or_default": [0], "core::result::Result::<T, E>::unwrap_or_default": [0],
+    "core::result::Result::<T, E>::ok": [0], "core::option::Option::<T>::cloned": [0], "core::option::Option::<T>::copied": [0],
+    "core::option::Option::<T>::take": [0], "core::option::Option::<T>::as_deref": [0], "core::option::Option::<T>::flatten": [0],
 }
 
 
